@@ -1,0 +1,20 @@
+//go:build verif
+
+// Contracts for govc (see /verif/DESIGN.md). Comment-only; compiled only with -tags verif.
+
+package tunescape
+
+//@ property C15 C07
+
+//@ global len(unescaper.escapableCharMap) == 256
+
+// skipped iff the record is already marked unescaped; the flag is set; a value without escape character is left alone;
+// the unescaped value is never longer than the original and keeps the text before the first escape character
+//@ func (tf *unescapeTransform) Transform(record *base.LogRecord) base.FilterResult
+//@   requires tf != nil && record != nil && 0 <= tf.keyLocator && tf.keyLocator < len(record.Fields)
+//@   modifies record.Unescaped, record.Fields[tf.keyLocator], mem(byte)
+//@   ensures  result == base.PASS && record.Unescaped
+//@   ensures[skipped-when-already-unescaped] old(record.Unescaped) ==> record.Fields[tf.keyLocator] === old(record.Fields[tf.keyLocator])
+//@   ensures[no-escape-char-untouched] (forall i int :: 0 <= i && i < len(old(record.Fields[tf.keyLocator])) ==> old(record.Fields[tf.keyLocator])[i] != unescaper.escapeChar)
+//@        ==> record.Fields[tf.keyLocator] === old(record.Fields[tf.keyLocator])
+//@   ensures[never-longer] len(record.Fields[tf.keyLocator]) <= len(old(record.Fields[tf.keyLocator]))
